@@ -360,7 +360,13 @@ impl Segments {
                     self.segments.push_back(s);
                     PopExpiredProbe::Empty
                 }
-                (true, true) if s.retransmit_count() >= max_probe_retransmissions => {
+                // The timer is for the first unACKed segment. Only if that is the probe itself (it
+                // was sent, and everything before it was delivered), the probe is what timed out.
+                (true, true)
+                    if s.retransmit_count() >= max_probe_retransmissions
+                        && s.send_count() > 0
+                        && self.segments.iter().all(|s| s.is_delivered) =>
+                {
                     // The probe's bytes go back to the unsegmented part of the TX buffer.
                     self.offset -= s.payload_size as u64;
                     self.len_bytes -= s.payload_size;
